@@ -84,6 +84,8 @@ class Profile:
     move_typedefs: bool = True        # typedefs may precede their template
     typedef_same_ns: bool = False     # typedef only in the namespace of its template
     this_scoped: bool = True          # This::X uses
+    global_typedefs: bool = True
+    favourite_members: Tuple[str, ...] = ()   # member names tried first
     scoped_needs_plain_arg: bool = False
 
 
@@ -294,9 +296,9 @@ def templates(draw, ctx: Ctx, used=(), force_lists=None, max_params=None):
 # ------------------------------------------------------------------ members
 
 def _member_names(ctx):
-    pool = list(FUNC_POOL)
+    pool = list(ctx.prof.favourite_members) + list(FUNC_POOL)
     if ctx.prof.py_keyword_names:
-        pool += PY_KEYWORDS[:10] + ['print'] + IPYTHON[:2]
+        pool += PY_KEYWORDS[:10] + ['print', 'print'] + IPYTHON[:2]
     return pool
 
 
@@ -547,7 +549,7 @@ def contents(draw, ctx: Ctx, path: Tuple[str, ...], depth_left: int, max_items=N
         kinds.append('include')
     if prof.fwd:
         kinds.append('fwd')
-    if prof.typedefs:
+    if prof.typedefs and (path or prof.global_typedefs):
         kinds.append('typedef')
     if depth_left > 0:
         kinds += ['ns', 'ns']
